@@ -434,6 +434,8 @@ func runC04(c *Ctx) {
 	checkGenericErrorDiscipline(c, "pkg/core")
 	checkUploadBatchProtocol(c, "index-count.batch-protocol")
 	checkNoStreamInRetry(c, "plumbing.no-stream-in-retry", "pkg/cafs", "pkg/core")
+	checkLeafSizeFromDescriptor(c, "plumbing.leaf-size-from-descriptor", "pkg/core", "pkg/fuse")
+	checkPutSourceFreshPerAttempt(c, "plumbing.source-fresh-per-attempt", "pkg/core", "pkg/cafs", "pkg/storage")
 }
 
 // disjuncts splits a || b || c.
